@@ -20,7 +20,7 @@ COQ = dict(imports=["Gen.DialectTables", "Spec.C18"], in_ty="in_C18", out_ty="ou
            corr="corr_C18", decide="check_C18", inclass="inclass_C18",
            model="(fun i : in_C18 => let '(d, c, r) := i in offline_chunks d c r)")
 THEOREMS = ["C18_decider_sound", "C18_main", "C18_grammar", "C18_per_migration", "C18_single_block", "C18_autocommit",
-            "C18_no_markers", "C18_content", "C18_tables_wf", "C18_table", "C18_ignores_connection_state"]
+            "C18_no_markers", "C18_content", "C18_tables_wf", "C18_table", "C18_ignores_connection_state", "C18_override_routes"]
 CASE_TIMEOUT = 30
 
 _TR_ERROR = None
@@ -44,13 +44,15 @@ TRUSTED = [
 ASSUME = [
     "env.py is the stock wrapper `with context.begin_transaction(): context.run_migrations()` with literal_binds=True, the "
     "context configured from dialect_name or from a live sqlite Connection (fresh or already in a transaction)",
-    "mssql_batch_separator / oracle_batch_separator options are left at the class defaults",
+    "mssql_batch_separator / oracle_batch_separator are left at the class default or set to '' or a custom string",
     "user statements never spell a transaction marker or a batch separator themselves; autocommit blocks are not nested",
 ]
 RULE = ("quick (exhaustive): {sqlite,postgresql,mysql,mariadb,mssql,oracle} x transactional_ddl {unset,True,False} x "
         "transaction_per_migration x {upgrade,downgrade,stamp} --sql x history {one,linear3,branched,merged,two roots} x "
         "autocommit placement {none,first,middle,last revision} + the same lattice on sqlite with the offline context configured "
-        "from a LIVE Connection x {fresh, already in a transaction (autobegun)} + linear3 with 7 body layouts (autocommit first/last/only/empty/"
+        "from a LIVE Connection x {fresh, already in a transaction (autobegun)} + the transactional_ddl override routed through the "
+        "EnvironmentContext keyword (alone, or contradicted by the configure() argument) on all dialects + mssql/oracle with the "
+        "batch separator option set to '' or a custom string + linear3 with 7 body layouts (autocommit first/last/only/empty/"
         "twice/multi-statement) ; thorough adds seeded random histories (2-7 revisions, merges, several roots), random bodies "
         "and partial ranges. non-trivial = effective transactional DDL and at least one step; distinct by encoded input")
 EXHAUSTIVE = {"quick": True, "thorough": True}
@@ -65,7 +67,7 @@ LEVEL_TEXT = ("Machine-checked: for every dialect entry of the regenerated table
               "blocks / one enclosing block / autocommit sections exactly as the property says, and no marker without transactional "
               "DDL. The model's output is compared chunk by chunk with the real output buffer on the whole configuration lattice.")
 LEVEL_NOTE = ("Trusted: Coq kernel+vm_compute, the model (tied by exhaustive correspondence on the lattice), the translator, the chunk "
-              "classifier. Not modelled: batch-separator options, nested autocommit blocks, exceptions during an offline run.")
+              "classifier. Not modelled: nested autocommit blocks, exceptions during an offline run.")
 
 SHAPES = {
     "one": [("a1", [])],
@@ -89,9 +91,32 @@ def _history(shape, auto, layout=None):
             for k, (i, dn) in enumerate(revs)]
 
 
-def _case(dialect, tddl, tpm, cmd, revs, spec, tag, conn=None):
+def _case(dialect, tddl, tpm, cmd, revs, spec, tag, conn=None, envkw="unset", sep=None):
     # conn: None = configured from dialect_name; "fresh"/"in_txn" = configured from a live sqlite Connection
-    return {"dialect": dialect, "tddl": tddl, "tpm": tpm, "cmd": cmd, "spec": spec, "revs": revs, "tag": tag, "conn": conn}
+    # envkw: transactional_ddl given as EnvironmentContext(..., transactional_ddl=envkw) keyword ("unset": the command is used)
+    # sep: value of the mssql_batch_separator / oracle_batch_separator option (None: not given)
+    return {"dialect": dialect, "tddl": tddl, "tpm": tpm, "cmd": cmd, "spec": spec, "revs": revs, "tag": tag, "conn": conn,
+            "envkw": envkw, "sep": sep}
+
+
+def _envkw_lattice():
+    for shape, auto in (("lin", "none"), ("mg", "mid")):
+        revs = _history(shape, auto)
+        last = revs[-1]["id"]
+        for dn, envkw, both, tpm, cmd in itertools.product(DIALECTS, [True, False], [False, True], [False, True],
+                                                           ["upgrade", "downgrade"]):
+            spec = {"upgrade": "heads", "downgrade": "%s:base" % last}[cmd]
+            yield _case(dn, (not envkw) if both else None, tpm, cmd, revs, spec, "%s/%s" % (shape, auto), envkw=envkw)
+
+
+def _sep_lattice():
+    for shape, auto in (("lin", "none"), ("lin", "mid"), ("mg", "last")):
+        revs = _history(shape, auto)
+        last = revs[-1]["id"]
+        for dn, sep, tddl, tpm, cmd in itertools.product(["mssql", "oracle"], ["", "XX"], [None, True, False], [False, True],
+                                                         ["upgrade", "downgrade", "stamp"]):
+            spec = {"upgrade": "heads", "downgrade": "%s:base" % last, "stamp": "heads"}[cmd]
+            yield _case(dn, tddl, tpm, cmd, revs, spec, "%s/%s" % (shape, auto), sep=sep)
 
 
 def _conn_lattice(shape, auto):
@@ -144,8 +169,9 @@ def _rand_case(rnd):
     else:
         spec = rnd.choice(["heads", tgt, "%s:%s" % (rnd.choice(sorted(anc[tgt]) or ["base"]), tgt)])
     conn = rnd.choice(["fresh", "in_txn"]) if rnd.random() < 0.25 else None
-    return _case("sqlite" if conn else rnd.choice(DIALECTS), rnd.choice([None, True, False]), rnd.random() < 0.5, cmd, revs,
-                 spec, "random", conn)
+    dn = "sqlite" if conn else rnd.choice(DIALECTS)
+    sep = rnd.choice(["", "XX"]) if dn in ("mssql", "oracle") and rnd.random() < 0.4 else None
+    return _case(dn, rnd.choice([None, True, False]), rnd.random() < 0.5, cmd, revs, spec, "random", conn, sep=sep)
 
 
 def generate(tier, seed):
@@ -155,6 +181,8 @@ def generate(tier, seed):
         yield from _lattice("lin", "mid", layout, tag="lin/layout-" + name)
     for shape, auto in itertools.product(["one", "lin", "br", "mg", "roots"], ["none", "first", "mid", "last"]):
         yield from _conn_lattice(shape, auto)
+    yield from _envkw_lattice()
+    yield from _sep_lattice()
     rnd = random.Random(seed * 7919 + 18)
     for _ in range(600 if tier == "quick" else 20000):
         yield _rand_case(rnd)
@@ -171,7 +199,7 @@ from alembic import context
 a = context.config.attributes
 if a["conn"] is None:
     context.configure(dialect_name=a["dn"], literal_binds=True, transaction_per_migration=a["tpm"],
-                      transactional_ddl=a["tddl"], on_version_apply=a["cb"])
+                      transactional_ddl=a["tddl"], on_version_apply=a["cb"], **a["extra"])
     with context.begin_transaction():
         context.run_migrations()
 else:
@@ -184,7 +212,7 @@ else:
                 connection.execute(text("select 1"))      # SQLAlchemy 2.0 autobegin
             assert connection.in_transaction() == (a["conn"] == "in_txn")
             context.configure(connection=connection, literal_binds=True, transaction_per_migration=a["tpm"],
-                              transactional_ddl=a["tddl"], on_version_apply=a["cb"])
+                              transactional_ddl=a["tddl"], on_version_apply=a["cb"], **a["extra"])
             with context.begin_transaction():
                 context.run_migrations()
     finally:
@@ -259,10 +287,29 @@ def run_case(h):
         cfg = Config()
         cfg.set_main_option("script_location", d)
         cfg.output_buffer = buf
-        cfg.attributes.update(dn=h["dialect"], tpm=h["tpm"], tddl=h["tddl"], cb=cb, conn=h.get("conn"))
+        extra = {}
+        if h.get("sep") is not None:
+            extra[_sep_option(didx)] = h["sep"]
+        cfg.attributes.update(dn=h["dialect"], tpm=h["tpm"], tddl=h["tddl"], cb=cb, conn=h.get("conn"), extra=extra)
         err = None
         try:
-            getattr(command, h["cmd"])(cfg, h["spec"], sql=True)
+            if h.get("envkw", "unset") == "unset":
+                getattr(command, h["cmd"])(cfg, h["spec"], sql=True)
+            else:
+                # what command.upgrade/downgrade(sql=True) do, with the override given to EnvironmentContext itself
+                from alembic.runtime.environment import EnvironmentContext
+                from alembic.script import ScriptDirectory
+                script = ScriptDirectory.from_config(cfg)
+                start, dest = h["spec"].split(":") if ":" in h["spec"] else (None, h["spec"])
+                if h["cmd"] == "upgrade":
+                    fn = lambda rev, context: script._upgrade_revs(dest, rev)
+                elif h["cmd"] == "downgrade":
+                    fn = lambda rev, context: script._downgrade_revs(dest, rev)
+                else:
+                    raise RuntimeError("envkw route: unsupported command")
+                with EnvironmentContext(cfg, script, fn=fn, as_sql=True, starting_rev=start, destination_rev=dest,
+                                        transactional_ddl=h["envkw"]):
+                    script.run_env()
         except util.CommandError:
             err = "CommandError"
         text = buf.getvalue()
@@ -271,8 +318,7 @@ def run_case(h):
 
     if err:
         # the command refused the range (e.g. target not reachable): nothing was run; model: empty run from a non-empty state
-        return dict(cin="(dget %d%%nat, mkOcfg %s %s %s, mkRun false [])" % (didx, cf.opt(h["tddl"], cf.boolean), cf.boolean(h["tpm"]),
-                                                                       cf.boolean(h.get("conn") == "in_txn")),
+        return dict(cin="(%s, %s, mkRun false [])" % (_dterm(h, didx), _ocfg(h)),
                     cout="[]" if not text else cf.lst(["RRaw " + cf.string(text[:40])]),
                     out={"err": err, "text": text[:200]}, nontrivial=False, shape="refused-" + h["cmd"])
 
@@ -330,16 +376,38 @@ def run_case(h):
         else:
             body = revs[s["up"][0]]["up" if s["upgrade"] else "dn"]
         osteps.append("mkOstep %s %d%%nat %s" % (_items(body), nver[j], cf.boolean(s["empty_after"])))
-    cin = "(dget %d%%nat, mkOcfg %s %s %s, mkRun %s %s)" % (
-        didx, cf.opt(h["tddl"], cf.boolean), cf.boolean(h["tpm"]), cf.boolean(h.get("conn") == "in_txn"),
-        cf.boolean(init_empty), cf.lst(osteps))
-    eff = h["tddl"] if h["tddl"] is not None else bool(_resolved_tddl(didx))
+    cin = "(%s, %s, mkRun %s %s)" % (_dterm(h, didx), _ocfg(h), cf.boolean(init_empty), cf.lst(osteps))
+    envkw = h.get("envkw", "unset")
+    eff = h["tddl"] if h["tddl"] is not None else (envkw if envkw not in ("unset", None) else bool(_resolved_tddl(didx)))
     has_auto = any(it != "s" for s in steps_seen if not s["stamp"]
                    for it in revs[s["up"][0]]["up" if s["upgrade"] else "dn"])
     shape = "%s-tddl%d-tpm%d-%s%s" % (h["cmd"], eff, h["tpm"], "autocommit" if has_auto else "plain",
                                       {None: "", "fresh": "-liveconn", "in_txn": "-liveconn-in-txn"}[h.get("conn")])
+    if envkw != "unset":
+        shape += "-envkw"
+    if h.get("sep") is not None:
+        shape += "-sep" + ("empty" if h["sep"] == "" else "custom")
     return dict(cin=cin, cout=cf.lst(chunks), out={"events": " ".join(evs), "steps": len(steps_seen)},
                 nontrivial=bool(eff and steps_seen), shape=shape)
+
+
+def _sep_option(idx):
+    r = _TABLE[idx]
+    while r is not None and not r.get("sep_opt"):
+        r = _TABLE[r["parent"]] if r["parent"] is not None else None
+    if r is None:
+        raise RuntimeError("dialect has no batch separator option")
+    return r["sep_opt"]
+
+
+def _dterm(h, didx):
+    return "dget %d%%nat" % didx if h.get("sep") is None else "dget_sep %d%%nat %s" % (didx, cf.string(h["sep"]))
+
+
+def _ocfg(h):
+    envkw = h.get("envkw", "unset")
+    return "mkOcfg %s %s %s %s" % (cf.opt(h["tddl"], cf.boolean), cf.boolean(h["tpm"]), cf.boolean(h.get("conn") == "in_txn"),
+                                   "None" if envkw == "unset" else cf.opt(envkw, cf.boolean))
 
 
 def _resolved_tddl(idx):
